@@ -131,8 +131,9 @@ def loads(s: str, parser=None, grammar=None, decoder=None, **kwargs):
     """
     if isinstance(s, bytes):
         # Someone passed us an old-style bytes sequence.  Although it isn't
-        # a string, we can deal with it:
-        s = s.decode()
+        # a string, we can deal with it (up to the first undecodable
+        # byte, like load() does):
+        s = decode_by_char(io.BytesIO(s))
 
     if parser is None:
         parser = OmniParser(
